@@ -17,21 +17,23 @@ The analysis itself is not modelled: a run is described by the findings each sta
 carrying the answers the real suppression lists give for it (`nomsgLocal`, `nomsgGlobal`, `nofail`, …).
 Whether a suppression matches a finding is C23's subject and a parameter here.
 
-Two places of the chain exist in two variants (see `Variant`): the code as shipped, and the code after the
-proposed patches /verif/proposed/C25-*.diff.  The check extracts from the source which variant the tree has.
+Two statements of the chain were repaired in /repo (a59832c: unmatchedSuppression findings honour
+--exitcode-suppressions; 4c58edf: --check-config returns the logger's exit code).  `Variant` keeps both forms: `patched`
+is the model of the tree (the check fails closed if the extraction sees anything else), `legacy` is kept only so that
+the counterexample theorems about the old statements stay checkable.
 -/
 namespace Cppcheck.ExitCode
 
-/-- which of the two candidate statements the tree contains at the two patch points -/
+/-- the form of the two repaired statements -/
 structure Variant where
   /-- `check_internal`: the unmatchedSuppression findings set the return value only if one of them is not
-      matched by an `--exitcode-suppressions` entry (patched).  Shipped: any reported unmatchedSuppression sets it. -/
+      matched by an `--exitcode-suppressions` entry (a59832c).  Before: any reported unmatchedSuppression set it. -/
   unmatchedNofail : Bool
-  /-- `checkInternal`, `--check-config` branch: `return mLogger->exitcode();` (patched).  Shipped: `return 0;`. -/
+  /-- `checkInternal`, `--check-config` branch: `return mLogger->exitcode();` (4c58edf).  Before: `return 0;`. -/
   checkConfigLogger : Bool
 deriving DecidableEq, Repr
 
-def shipped : Variant := ⟨false, false⟩
+def legacy : Variant := ⟨false, false⟩
 def patched : Variant := ⟨true, true⟩
 
 inductive Executor | single | thread | process
@@ -233,12 +235,12 @@ def unmatchedPlain (r : Run) : Bool :=
 /-- no 2^32 wrap-around of the `unsigned int` accumulation -/
 def noWrap (r : Run) : Bool := r.files.length + r.lostPipes + 1 < two32
 
-/-- the run avoids the input class on which the shipped chain ignores `--exitcode-suppressions` (F9):
+/-- the run avoids the input class on which the legacy chain ignored `--exitcode-suppressions` (F9):
     unmatchedSuppression findings are reported and every one of them is matched by an exitcode suppression -/
 def avoidsUnmatchedNofail (r : Run) : Bool :=
   r.v.unmatchedNofail || !r.unmatchedGate || r.unmatched.isEmpty || r.unmatched.any (fun u => !u.nofail)
 
-/-- the run avoids `--check-config` on a tree whose `checkInternal` returns 0 there -/
+/-- the run avoids `--check-config` on the legacy chain, whose `checkInternal` returned 0 there -/
 def avoidsCheckConfig (r : Run) : Bool := r.v.checkConfigLogger || !r.o.checkConfig
 
 end Cppcheck.ExitCode
